@@ -170,7 +170,10 @@ def run(ck, facts, tier):
             item = Sym("param", "x"); item.ty = NUMBER
             acc = Sym("acc"); acc.ty = NUMBER
             it = cel.Seq(Sym("param", "iter"), lambda idx, item=item: item)
-            got = cel.Ev(facts).apply_fn(r["fn"], [it], 0)
+            # the contained additions are judged by R01.1/R02.1/R18.3: here each is one opaque step, so only the container's own dispatch is compared
+            inner_add = {rr["fn"]: (lambda ev, vals, e: Sym("plus", *[cel.vkey(v) for v in vals])) for rr in facts.all_fns()
+                         if rr.get("trait_item") == "std::ops::Add::add" and NUMBER not in [c01.base(t) for t in rr.get("sig", [])]}
+            got = cel.Ev(facts, hooks=inner_add).apply_fn(r["fn"], [it], 0)
             ok = isinstance(got, Sym) and got.tag[0] == "fold" and got.tag[1] == cel.vkey(Sym("param", "iter"))
             why = "sum is not a single fold over the items: %s" % cel.vfmt(got)[:200]
             if ok:
@@ -178,7 +181,7 @@ def run(ck, facts, tier):
                 why = "the fold does not start from the plain-float zero F64(0.0)"
             if ok:
                 add_fn = next(rr["fn"] for rr in facts.all_fns() if rr.get("trait_item") == "std::ops::Add::add" and rr.get("sig") == [NUMBER, NUMBER])
-                step = cel.Ev(facts).apply_fn(add_fn, [acc, item], 0)
+                step = cel.Ev(facts, hooks=inner_add).apply_fn(add_fn, [acc, item], 0)
                 ok = _noclos(got.tag[3]) == _noclos(cel.vkey(step))
                 why = "the fold step is not the container's `acc + item`"
             ck.check(r4, "Sum for Number", ok, why, where, detail=cel.vfmt(got)[:300], sample="iter.fold(Number::F64(0.0), |acc, x| acc + x)")
